@@ -57,7 +57,7 @@ def runC05P (toks : List String) : String :=
 def parseFx (s : String) : Fixes :=
   if s = "FX=current" then Fixes.current else
   let has (c : Char) := (s.drop 3).toString.toList.contains c
-  { f4 := has 'a', f23 := has 'b', f22 := has 'c', fzomb := has 'd', fstale := has 'e', f31 := has 'k' }
+  { f4 := has 'a', f23 := has 'b', f22 := has 'c', fzomb := has 'd', fstale := has 'e', f31 := has 'k', fkept := has 'p' }
 
 /-- `cp:w,cp:w,…`, `-` for the empty text -/
 def parseText (s : String) : Option Text :=
@@ -255,6 +255,8 @@ def runTAB (rest : String) : String :=
     match (s.trimAscii.toString.splitOn " ").filter (· ≠ "") with
     | ["tw", n] => n.toNat?.map .setTabWidth
     | ["style"] => some (.setStyle [[97, 9, 98, 32], [124], [124]] [120, 9, 121])
+    | ["style", k] => some (.setStyle [[97, 9, 98, 32], [124], [124]]
+        (match k with | "1" => [97, 9, 98, 9, 99] | "2" => [9, 9] | "3" => "no tab".toList.map Char.toNat | _ => [120, 9, 121]))
     | ["msg", t] => some (.setMessage (cpsOf t))
     | ["prefix", t] => some (.setPrefix (cpsOf t))
     | _ => none
